@@ -36,10 +36,11 @@ let run mode file =
   let open_free : int list option ref = ref None in
   let data_written = ref IS.empty in
   let mdead = ref false in
+  let meta_written = ref false and d5 = ref false and reinit = ref false in
   let mismatch what detail =
     if not !mdead then begin
       incr mism; mdead := true;
-      Printf.printf "MISMATCH case=%s op=%d (%s) what=%s %s\n" !case_id !opidx (String.concat " " !cur) what detail end in
+      Printf.printf "MISMATCH case=%s op=%d (%s) what=%s%s %s\n" !case_id !opidx (String.concat " " !cur) what (if !d5 then " sig=d5 " else "") detail end in
   let feed (l : Pager.label) what =
     match !ms with
     | None -> ()
@@ -53,14 +54,14 @@ let run mode file =
   let flen_open = ref 0 and flen_prev = ref 0 and expect_refuse = ref false and mark_before = ref 0 in
   let propfail rule detail =
     incr pfail;
-    Printf.printf "PROPFAIL case=%s op=%d (%s) rule=%s %s\n" !case_id !opidx (String.concat " " !cur) rule detail in
+    Printf.printf "PROPFAIL case=%s op=%d (%s) rule=%s%s %s\n" !case_id !opidx (String.concat " " !cur) rule (if !d5 then " sig=d5 " else "") detail in
   let set_to_s s = String.concat "," (List.map string_of_int (IS.elements s)) in
   (try while true do
     let line = input_line ic in
     match split_ws line with
     | "case" :: id :: _ ->
       incr cases; case_id := id; opidx := 0; Buffer.clear optext; flags := []; curv := None; prevv := None;
-      Hashtbl.reset readers; ever_used := IS.empty; ms := None; mdead := false; open_free := None
+      Hashtbl.reset readers; ever_used := IS.empty; ms := None; mdead := false; open_free := None; d5 := false; meta_written := false
     | "fl" :: op :: txid :: a :: b :: ret :: _ when not !mdead ->
       let a = int_of_string a and b = int_of_string b and ret = int_of_string ret in
       (match op, !ms with
@@ -80,11 +81,26 @@ let run mode file =
                   | _ -> ());
                for p = m to m + n - 1 do feed (Pager.LAlloc (n_of_int p)) "allocation at the mark" done
              | None -> mismatch "guard" "allocation without a writer")
-       | "rollback", Some s -> if s.Pager.g_w <> None then feed Pager.LRollback "rollback"
+       | "rollback", Some s ->
+         if s.Pager.g_w <> None then begin
+           if !meta_written then begin
+             (* the sync AFTER the meta write failed: the new meta is what db.meta() sees, so the transaction is present;
+                the error path then drops pending[T] and reloads the list from the NEW freelist page: T's frees become free *)
+             let wid = match s.Pager.g_w with Some w -> w.Pager.w_id | None -> BinNums.N0 in
+             feed Pager.LCommit "commit (final sync failed)";
+             (match !ms with
+              | Some s2 ->
+                let mine = List.filter (fun e -> int_of_n (Pager.e_tx e) = int_of_n wid) s2.Pager.g_pend in
+                ms := Some { s2 with Pager.g_free = s2.Pager.g_free @ List.map Pager.e_pg mine;
+                                     Pager.g_pend = List.filter (fun e -> int_of_n (Pager.e_tx e) <> int_of_n wid) s2.Pager.g_pend }
+              | None -> ());
+             if Hashtbl.length readers > 0 then d5 := true
+           end else feed Pager.LRollback "rollback"
+         end
        | _ -> ())
     | "o" :: rest -> cur := rest; incr opidx;
       (match rest with "img" :: _ -> () | _ -> Buffer.add_string optext (String.concat " " rest); Buffer.add_char optext '\n');
-      (match rest with "open" :: _ -> ms := None; open_free := None; data_written := IS.empty | _ -> ());
+      (match rest with "open" :: _ -> ms := None; open_free := None; data_written := IS.empty; reinit := true | _ -> ());
       (match rest with
        | "open" :: fields ->
          maxsize := 0; asz := 16777216; ngs := false;
@@ -93,9 +109,11 @@ let run mode file =
            | ["asz"; v] -> if v <> "0" then asz := int_of_string v | ["ngs"; v] -> ngs := v <> "0" | _ -> ()) fields
        | ["close"] -> Hashtbl.reset readers
        | _ -> ())
+    | "io" :: "mmap" :: _ :: _ :: ["FAIL"] -> ms := None      (* unmapped until reopen: the free list is not reloaded *)
     | "io" :: "write" :: off :: len :: rest ->
       incr ops; incr writes;
       let off = int_of_string off and len = int_of_string len in
+      if off < 2 * !ps && rest <> ["FAIL"] then meta_written := true;
       if off >= 2 * !ps && rest <> ["FAIL"] then
         for p = off / !ps to (off + len - 1) / !ps do data_written := IS.add p !data_written done;
       if rest <> ["FAIL"] then begin
@@ -119,6 +137,9 @@ let run mode file =
           end
       end
     | "r" :: res ->
+      (* readers the harness had to close so that a blocked (remapping) commit could proceed *)
+      List.iter (fun f -> if String.length f > 15 && String.sub f 0 15 = "blocked-closed=" then
+        List.iter (fun id -> Hashtbl.remove readers (int_of_string id)) (String.split_on_char ',' (String.sub f 15 (String.length f - 15)))) res;
       (match !cur, res with
        | "img" :: _, ["ok"; path; _; psz] ->
          ps := int_of_string psz;
@@ -126,7 +147,8 @@ let run mode file =
           | None -> propfail "decode" "image not decodable"
           | Some v -> prevv := !curv; curv := Some v; ever_used := IS.union !ever_used v.pages;
             (match !ms with
-             | None when not !mdead ->
+             | None when not !mdead && !reinit ->
+               reinit := false;
                (* (re)open: the model restarts from what the decoder sees; its rebuilt free list must be the code's *)
                let pages = List.map n_of_int (IS.elements v.pages) in
                let s0 = Pager.pg_open (n_of_int v.txid) (n_of_int v.mark) pages [] in
@@ -146,7 +168,7 @@ let run mode file =
        | ["beginr"; id], "ok" :: _ ->
          (match !curv with Some v -> Hashtbl.replace readers (int_of_string id) v; flag "reader" | None -> ())
        | ["endr"; id], _ -> Hashtbl.remove readers (int_of_string id)
-       | ["commit"], "ok" :: _ when (match !ms with Some s -> s.Pager.g_w <> None | None -> false) && not !mdead ->
+       | (["commit"] | "commitfail" :: _), "ok" :: _ when (match !ms with Some s -> s.Pager.g_w <> None | None -> false) && not !mdead ->
          (match !ms with
           | Some s ->
             let cw = sorted_ints (Pager.commit_writes s) in
@@ -162,7 +184,8 @@ let run mode file =
          if not !expect_refuse then mismatch "refusal" "the code refused with ErrMaxSizeReached where Grow.alloc_refused does not"
        | ["commit"], "ok" :: _ when mode = "c18" && !expect_refuse && not !mdead ->
          mismatch "refusal" "Grow.alloc_refused predicts ErrMaxSizeReached but the commit succeeded"
-       | ["beginw"], "ok" :: _ -> data_written := IS.empty; expect_refuse := false;
+       | "commitfail" :: _, e :: _ when e <> "ok" -> meta_written := false
+       | ["beginw"], "ok" :: _ -> data_written := IS.empty; expect_refuse := false; meta_written := false;
          (match !ms with Some s -> mark_before := int_of_n s.Pager.g_mark | None -> ())
        | "open" :: _, _ -> ms := None; data_written := IS.empty
        | ["commit"], ["ok"; bc] when String.length bc > 15 ->
